@@ -48,7 +48,7 @@ def run(pid, tier, seed):
     proof = apalache(wd)
     out = os.path.join(wd, "mc_rng.out")
     text = (f"INIT Init\nNEXT Next\nCONSTANT MaxCalls = {cfg['calls']}\nCONSTANT EmitRows = TRUE\nVIEW RngView\n"
-            "INVARIANT InRange\nINVARIANT Pure\nCHECK_DEADLOCK FALSE\n")
+            "INVARIANT InRange\nINVARIANT Pure\nINVARIANT Classes\nCHECK_DEADLOCK FALSE\n")
     st = c.run_tlc("MC_Rng", text, out, os.path.join(wd, "md"), workers=6, timeout=1800)
     c.require_tlc_ok(st, "MC_Rng")
     rp = os.path.join(wd, "rng_replay.json")
@@ -77,9 +77,10 @@ def run(pid, tier, seed):
         "traces_validated_against_impl": rep["counters"].get("rows", 0) + validated,
         "rows_replayed": rep["counters"].get("rows", 0), "rnd_calls_validated_by_tlc": validated,
         "evaluations": rep["counters"].get("rows", 0) + validated, "distinct_nontrivial": rep["counters"].get("rows_nontrivial", 0),
-        "rule": f"MC_Rng: 17 boundary seeds x all argument-sign sequences of length <= {cfg['calls']}; Trace_Rng: boundary seeds x 3 signs plus random 64-bit seeds",
+        "rule": f"MC_Rng: 17 boundary seeds x all sequences of length <= {cfg['calls']} over the arguments 1 / 0 / -1, with at most one of "
+                "0.5, -0.5, -0, 2^-20, 10^6, 1.5, NaN, +inf, -inf in any position; Trace_Rng: boundary seeds x 3 signs plus random 64-bit seeds x all 12 arguments",
         "apalache_inductive_invariant": proof,
-        "model_invariants_checked": ["InRange", "Pure", "RngInd!IndInv (Apalache, unbounded Int)"],
+        "model_invariants_checked": ["InRange", "Pure", "Classes", "RngInd!IndInv (Apalache, unbounded Int)"],
         "samples": rep["samples"][:5], "exhaustive": True,
     }
     c.finish(pid, tier, seed, t0, cov, violations, ASSUMPTIONS)
